@@ -143,11 +143,30 @@ func (j *judgeCtx) matchFailure(e error, used map[*rt.CallEv]bool) *rt.CallEv {
 			}
 			continue
 		}
-		if c.End == prog.OErr && c.Err != nil && errors.Is(e, c.Err) {
+		if c.End == prog.OErr && c.Err != nil && isErr(e, c.Err) {
 			return c
 		}
 	}
 	return nil
+}
+
+// isErr: e is (errors.Is) the error target a call returned. errors.Is compares
+// with == and therefore never matches a target of non-comparable dynamic type
+// (a slice-typed error): those are matched along the Unwrap chain by deep
+// equality (every such error is unique per call).
+func isErr(e, target error) bool {
+	if errors.Is(e, target) {
+		return true
+	}
+	if reflect.TypeOf(target).Comparable() {
+		return false
+	}
+	for cur := e; cur != nil; cur = errors.Unwrap(cur) {
+		if reflect.TypeOf(cur) == reflect.TypeOf(target) && reflect.DeepEqual(cur, target) {
+			return true
+		}
+	}
+	return false
 }
 
 func isCtxErr(e error) bool {
@@ -858,9 +877,20 @@ func (j *judgeCtx) judgeEmitters() {
 	}
 }
 
+// sameErr: the very same error value (== where the dynamic type is comparable,
+// deep equality for error values of non-comparable type such as a slice).
 func sameErr(a, b error) bool {
-	defer func() { recover() }()
-	return a == b
+	if a == nil || b == nil {
+		return a == nil && b == nil
+	}
+	ta, tb := reflect.TypeOf(a), reflect.TypeOf(b)
+	if ta != tb {
+		return false
+	}
+	if ta.Comparable() {
+		return a == b
+	}
+	return reflect.DeepEqual(a, b)
 }
 
 func multiset(evs []rt.EmitEv) string {
